@@ -6,3 +6,5 @@ import PysamlModel.Props.C05
 #print axioms C05.C05_stale_instant
 #print axioms C05.C05_reported_expiry
 #print axioms C05.C05_model_meets_spec_sound
+#print axioms C05.C05_inside_accepted
+#print axioms C05.C05_model_meets_spec_complete
